@@ -6,7 +6,7 @@ SPEC = {
     "design_ref": "DESIGN.md section 7, C13",
     "suites": [
         Suite(name="worker", harness="vh_worker", runner="worker", godev=True,
-              model_deps=["theories/Model/Worker.vo"],
+              model_deps=["theories/Model/Worker.vo", "theories/Model/WorkerStore.vo"],
               quick_n=400, thorough_n=6000,
               rule="the harness is injected into package main of godev/cmd/worker (tag verif) and runs the REAL "
                    "handleMerge / readMergedReports / handleChart (parseDateRange, group, charts, partition, fileName) over "
@@ -19,7 +19,13 @@ SPEC = {
                    "with GOOS/Version, 8% with a GoVersion goMajorMinor used to panic on (go1, g, empty: fixed by 48ba0d4); 1-8 days crossing month ends, 0-40 reports "
                    "a day via the real merge, 18% with one day missing; observed: status, object name, the chart JSON in the "
                    "order written, and whether re-running and re-shuffling the same set of reports over the days gives the "
-                   "byte-identical object), 1 end<start range, 3 goMajorMinor strings, 2 splitCounterName/Expand/"
+                   "byte-identical object; 8 of the 10 slots), 2 seq cases (SEQUENCES on one set of buckets: 1-6 small reports "
+                   "per day stored, each day merged, the range charted, then in 1-2 further rounds stored reports withdrawn / "
+                   "re-stored under the same name with a shorter or arbitrary body / added, each day merged AGAIN and the "
+                   "range charted AGAIN with nothing removed in between, so merged and chart objects are rewritten in place, "
+                   "mostly with shorter content; observed after every merge: status, count, listing, the merged object's "
+                   "bytes and its decoding as a stream of reports, the real read-back; after every chart: status and the "
+                   "chart object parsed), 1 end<start range, 3 goMajorMinor strings, 2 splitCounterName/Expand/"
                    "IsToolchainProgram strings. semver.Compare/version.Compare enter the model as rank tables of the case's "
                    "keys computed with the real comparators. distinct = distinct case lines; a merge case of an empty day is "
                    "the only kind counted trivial"),
@@ -34,7 +40,9 @@ SPEC = {
                   "distinct X among the reports having a program report of that program that carries a configured bucket "
                   "normalising to the key (independent membership-only specification, proved equivalent to the executable "
                   "oracle chart_ok); which data/charts are present, their week and order; the chart object is the same for all "
-                  "permutation-valued map iteration orders, all sort.Slice implementations meeting its contract, all orders "
+                  "after any history of uploads, withdrawals, re-uploads, merges and charts a re-merge leaves exactly the "
+                  "currently stored reports in the day's merged object (writing an object replaces it) and the chart made "
+                  "from it counts exactly those; permutation-valued map iteration orders, all sort.Slice implementations meeting its contract, all orders "
                   "of the stored reports within and across the days of the range; a missing day gives no chart (not found). "
                   "charts()/handleChart never panic, for ALL configurations, reports, orders and comparators (no premise; "
                   "finding 16 fixed by 48ba0d4, the former refuted theorem is now this totality theorem). The other chart "
@@ -56,10 +64,11 @@ SPEC = {
         "encoding/json: an encoded report holds no raw newline, is not empty, and decodes to the same report (premises of C13_merge_one_line_per_object / C13_read_all; sampled by the merge cases)",
         "semver.Compare is a total preorder (then compareSemver is a strict total order: C13_compare_semver_order); version.Compare is a strict total order on the normalised go versions of the configuration (checked per case on the rank tables)",
         "sort.Slice returns a permutation of its input which is sorted whenever less is a strict total order on the distinct keys; ranging over a Go map visits every key exactly once in some order",
-        "storage: FSBucket is exercised; the GCS bucket is not",
+        "storage: an object write (NewWriter, Write, Close) replaces the object (b_put); FSBucket is exercised against that model incl. rewrites with shorter content; the GCS bucket is not; the listing order of Objects(prefix) is a parameter (observed per merge)",
     ],
     "trusted_base": [],
-    "own_objects": ["theories/Props/C13.vo", "theories/Proofs/WorkerProps.vo", "theories/Proofs/WorkerOracle.vo",
+    "own_objects": ["theories/Props/C13.vo", "theories/Proofs/WorkerStoreFacts.vo", "theories/Model/WorkerStore.vo",
+                    "theories/Proofs/WorkerProps.vo", "theories/Proofs/WorkerOracle.vo",
                     "theories/Proofs/WorkerChart.vo", "theories/Proofs/WorkerSpec.vo", "theories/Proofs/WorkerFacts.vo",
                     "theories/Model/Worker.vo", "theories/Lib/Sort.vo"],
 }
